@@ -586,7 +586,7 @@ pub mod entry {
         use super::*;
 """)
     g = U.file(G)
-    g.fn('source_file', depth=2, spec=gspec('', ' ' + PW + 'cur(final(p).st()) == SyntaxKind::EOF,                  //@C02,C01:whole-input-consumed\n    // called on a fresh parser, the event list is one SOURCE_FILE node: its Start comes first and its Finish last\n    old(p).events@.len() == 0 ==> crate::event::root_first(final(p).events@) && final(p).events@.last() is Finish,       //@C02,C01:one-root-node'), props=P, nodecreases=True, qualname='entry::top::source_file')
+    g.fn('source_file', depth=2, spec=gspec('', ' ' + PW + 'cur(final(p).st()) == SyntaxKind::EOF,                  //@C02,C01:whole-input-consumed\n    // called on a fresh parser, the event list is one SOURCE_FILE node: its Start comes first and its Finish last\n    old(p).events@.len() == 0 ==> crate::event::root_first(final(p).events@) && final(p).events@.last() is Finish,       //@C02,C01:one-root-node'), props=P, nodecreases=True, all_loops=DEC, qualname='entry::top::source_file')
     g.fn('expr', depth=2, spec=gspec(), props=P, nodecreases=True, qualname='entry::top::expr', ghost=[('            while !p.at(EOF)', 'before', 'assume(p.has_err()); // KF:C12-expr-entry-error-node\n')], loops={1: 'invariant crate::parser::mono(*old(p), *p), p.has_err(),\ndecreases crate::parser::rem(p.st()),'})
     U.raw('    }\n}\n')
     g.item('enum', 'BlockLike')
